@@ -152,7 +152,7 @@ def asmatrix_unit(ctx, unit):
             if kind == 'frac':
                 return gen.small_frac(rng, nonzero=True)
             if kind == 'int':
-                return rng.choice((1, -1)) * rng.randint(100, 4000)      # plain Python ints, products far outside any narrow integer type
+                return rng.choice((1, -1)) * rng.randint(20, 120)      # plain Python ints whose products leave any narrow integer type
             if kind == 'float':
                 return gen.dyadic(rng) + 0.125
             if kind == 'array':
@@ -166,7 +166,12 @@ def asmatrix_unit(ctx, unit):
             Mx, My = x.asmatrix(), y.asmatrix()
             Ms = (lam * x + mu * y).asmatrix()
             back = MultiVector.frommatrix(alg, Mx) if kind != 'array' else None
-            Mp = (x * y).asmatrix() if kind in ('int', 'frac') else None
+            Mp = None
+            if kind in ('int', 'frac'):
+                try:
+                    Mp = (x * y).asmatrix()
+                except OverflowError as e_:
+                    Mp = e_
             return Mx, My, Ms, back, Mp
         st, out = ctx.guarded(60, work)
         if st != 'ok':
@@ -174,12 +179,29 @@ def asmatrix_unit(ctx, unit):
                 ctx.note_raised(out, 'asmatrix-' + kind)
             continue
         Mx, My, Ms, back, Mp = out
+        if kind == 'int':
+            # the product a user forms from the returned matrices must be the exact integer product (no narrow dtype)
+            exact_ = np.array(Mx, dtype=object).dot(np.array(My, dtype=object))
+            native_ = np.asarray(Mx) @ np.asarray(My)
+            ctx.count('native_integer_products_compared')
+            if not np.array_equal(np.array(native_, dtype=object), exact_):
+                ctx.violation('asmatrix(x) @ asmatrix(y) of integer multivectors is not the exact integer product', cid + ['native-product'], config=cfg,
+                              keys=[list(kx), list(ky)], values=[[str(v) for v in x.values()], [str(v) for v in y.values()]],
+                              dtype=str(getattr(np.asarray(Mx), 'dtype', None)), mechanism_hint=hint)
+        if isinstance(Mp, Exception):
+            ctx.note_raised(Mp, 'asmatrix-of-product')
+            Mp = None
         if Mp is not None:
             # multiplicativity on the multivectors themselves, in exact arithmetic
             try:
                 A_, B_, P_ = (np.array(m, dtype=object) for m in (Mx, My, Mp))
                 if P_.shape == ():
                     P_ = np.zeros(A_.shape, dtype=object) + P_      # the empty product: asmatrix() of the empty multivector is the number 0
+                native = np.asarray(Mx) @ np.asarray(My) if kind == 'int' else None     # the product a user forms from the returned matrices
+                if native is not None and not np.array_equal(np.array(native, dtype=object), P_):
+                    ctx.violation('asmatrix(x) @ asmatrix(y) formed from the returned matrices differs from asmatrix(x*y)', cid + ['native-product'],
+                                  config=cfg, keys=[list(kx), list(ky)], values=[[str(v) for v in x.values()], [str(v) for v in y.values()]],
+                                  dtype=str(getattr(np.asarray(Mx), 'dtype', None)), mechanism_hint=hint)
                 if not np.array_equal(A_.dot(B_), P_):
                     ctx.violation('asmatrix(x*y) != asmatrix(x) @ asmatrix(y) for integer / rational coefficients', cid + ['product'], config=cfg,
                                   keys=[list(kx), list(ky)], values=[[str(v) for v in x.values()], [str(v) for v in y.values()]], mechanism_hint=hint)
